@@ -317,6 +317,7 @@ fn main() {
             "--must-match" => { must.push(decode(&val(i))); i += 1; }
             "--must-not-match" => { must_not.push(decode(&val(i))); i += 1; }
             "--expect-regex" => { expect = Some(decode(&val(i))); i += 1; }
+            "--expect-raw" => { expect = Some(val(i)); i += 1; }          // the expected text as it is (escapes stay escapes)
             "--no-soundness" => { soundness = false; }
             "--search" => { search = true; }
             o => panic!("unknown option {o}"),
@@ -328,6 +329,11 @@ fn main() {
     let mut ok = true;
     let re = match Regex::new(&out) {
         Ok(r) => r,
+        // surrogate-pair output is not meant for the regex crate: with --no-soundness only the expected text is compared
+        Err(_) if !soundness && must.is_empty() && must_not.is_empty() => {
+            if let Some(e) = &expect { let r = *e == out; println!("{} expected expression {:?}", if r { "ok:" } else { "FAIL:" }, e); std::process::exit(if r { 0 } else { 1 }) }
+            std::process::exit(0)
+        }
         Err(e) => { println!("FAIL: expression does not compile: {e}"); std::process::exit(1); }
     };
     let full = |s: &str| -> bool {
